@@ -56,9 +56,9 @@ fn default_runs(prop: &str, tier: &str) -> u64 {
         ("C04", "quick") => 400_000,
         ("C12", "quick") => 400_000,
         ("C19", "quick") => 300_000,
-        ("C04", _) => 60_000_000,
-        ("C12", _) => 60_000_000,
-        ("C19", _) => 120_000_000,
+        ("C04", _) => 120_000_000,
+        ("C12", _) => 120_000_000,
+        ("C19", _) => 200_000_000,
         _ => 1000,
     }
 }
